@@ -863,7 +863,14 @@ func (fr *Frame) applyContract(c *Contract, callee *ssa.Function, args []Val, re
 			fc.unsupported("modifies clause %q", m)
 		}
 	}
-	res := fr.freshResult(resT, "r_"+shortFn(name))
+	var res Val
+	if c.Flags["pure"] && len(c.Modifies) == 0 {
+		// pure contracted function: its results are (uninterpreted) functions of the arguments, so two calls
+		// with equal arguments yield equal results
+		res = fr.pureResult(resT, name, args)
+	} else {
+		res = fr.freshResult(resT, "r_"+shortFn(name))
+	}
 	results := flatten(res)
 	if tupT, ok := resT.(*types.Tuple); ok && tupT.Len() == 0 {
 		results = nil
